@@ -1,0 +1,9 @@
+//go:build verif
+
+package repl
+
+// VerifMultiLine exposes the classification the REPL applies to a read error
+// (true: keep reading lines). Only built with the "verif" tag.
+func VerifMultiLine(err error) bool {
+	return multiLine(err)
+}
